@@ -18,7 +18,7 @@ def setup : List String :=
    "file /c17/w/t/c.c 00", "mtime /c17/w/t/c.c 92", "prog c17/w/t/c.c save=0 inc=- inh=- ssw=0",
    "file /c17/w/t/b.c 00", "mtime /c17/w/t/b.c 95", "prog c17/w/t/b.c save=1 inc=c17/w/t/g.h inh=c17/w/t/c.c ssw=0",
    "file /c17/w/t/a.c 00", "mtime /c17/w/t/a.c 100", "prog c17/w/t/a.c save=1 inc=c17/w/t/h.h inh=c17/w/t/b.c ssw=1",
-   "mtime /simul_efun.c 50", "restart c17/w/t/a c17/w/t/b", "calls f:%61", "expect f:%61 f-0"]
+   "mtime /simul_efun.c 50", "restart c17/w/t/a c17/w/t/b", "calls f:%61", "expect f:%61 f-0", "now 150"]
 def rl : String := "reload c17/w/t/a c17/w/t/b"
 def mkCase (between : List String) : List String := setup ++ [rl] ++ between ++ [rl]
 
@@ -122,5 +122,87 @@ def up : String := "upatch pad=0 sp=4096,2147487744,4294971392 sw=2:1,1:2,0:3"
 #guard has (judge [up] ["sw 0 0:3,1:2"]) "patch-table-changed"
 #guard has (judge [up] ["sw 0 0:1,1:2,2:3"]) "patch-table-changed"
 #guard has (judge [up] []) "unit-output-missing"
+
+/-! quickSort unit clause: order by value (3 values, `c` row-major: compar (x, y)) -/
+def uq : List String := ["uqsort sz=8 m=3 v=2,0,1,0 c=0--+0-++0"]
+#guard judge uq ["qs 0:1,0:3,1:2,2:0"] == []
+#guard judge uq ["qs 0:3,0:1,1:2,2:0"] == []
+#guard has (judge uq ["qs 0:1,1:2,0:3,2:0"]) "qsort-not-sorted"
+#guard has (judge uq ["qs 0:1,0:1,1:2,2:0"]) "qsort-not-a-permutation"
+#guard has (judge uq ["qs 0:1,0:3,1:0,2:2"]) "qsort-not-a-permutation"
+#guard has (judge uq ["qs 0:1,torn,1:2,2:0"]) "qsort-element-torn"
+#guard has (judge uq []) "unit-output-missing"
+-- a comparison that is not an order: any rearrangement is accepted, a lost element is not
+#guard judge ["uqsort sz=4 m=2 v=1,0,1 c=----"] ["qs 1,1,0"] == []
+#guard has (judge ["uqsort sz=4 m=2 v=1,0,1 c=----"] ["qs 1,0,0"]) "qsort-not-a-permutation"
+
+/-! compiled against a parent that was out of date in memory: b.c edited (120) while b stays loaded, a compiled again
+    and saved (block 2), then everything loaded again (block 3) and a's binary of block 2 used -/
+def staleParentCase : List String :=
+  ["clean /c17/w/t", "file /c17/w/t/b.c 00", "mtime /c17/w/t/b.c 95", "prog c17/w/t/b.c save=0 inc=- inh=- ssw=0",
+   "file /c17/w/t/a.c 00", "mtime /c17/w/t/a.c 100", "prog c17/w/t/a.c save=1 inc=- inh=c17/w/t/b.c ssw=0",
+   "mtime /simul_efun.c 50", "restart c17/w/t/a c17/w/t/b", "now 110", "reload c17/w/t/a c17/w/t/b",
+   "mtime /c17/w/t/b.c 120", "now 130", "reload c17/w/t/a", "now 150", "reload c17/w/t/a c17/w/t/b"]
+def spBlock1 : List String :=
+  ["restarted 50", "begin 1", "lb c17/w/t/a.c stale", "lb c17/w/t/b.c stale", "lb c17/w/t/a.c stale", "sv c17/w/t/a.c 110 inc=-", "end 1"]
+def spBlock3 (a : String) : List String :=
+  ["begin 3", "lb c17/w/t/a.c needs c17/w/t/b.c", "lb c17/w/t/b.c stale", a, "end 3"]
+-- the repaired driver: no binary is written in block 2, block 3 compiles
+#guard judge staleParentCase (spBlock1 ++ ["begin 2", "lb c17/w/t/a.c stale", "sv c17/w/t/a.c notwritten", "end 2"] ++
+  ["begin 3", "lb c17/w/t/a.c stale", "lb c17/w/t/b.c stale", "lb c17/w/t/a.c stale", "sv c17/w/t/a.c 150 inc=-", "end 3"]) == []
+-- the driver before the repair: saved in block 2, used in block 3
+#guard has (judge staleParentCase (spBlock1 ++ ["begin 2", "lb c17/w/t/a.c stale", "sv c17/w/t/a.c 130 inc=-", "end 2"] ++
+  spBlock3 "lb c17/w/t/a.c use")) "stale-binary-used c17/w/t/a.c dep=compiled-against-older-version-of:c17/w/t/b.c"
+-- saved in block 2 but the parent stays as it is in memory (block 3 reloads only a): the binary matches what a compile gives
+#guard judge (staleParentCase.dropLast ++ ["reload c17/w/t/a"])
+  (spBlock1 ++ ["begin 2", "lb c17/w/t/a.c stale", "sv c17/w/t/a.c 130 inc=-", "end 2", "begin 3", "lb c17/w/t/a.c use", "end 3"]) == []
+-- a save that did not happen although every parent was current
+#guard has (judge staleParentCase (["restarted 50", "begin 1", "lb c17/w/t/a.c stale", "lb c17/w/t/b.c stale", "lb c17/w/t/a.c stale",
+  "sv c17/w/t/a.c notwritten", "end 1"])) "save-failed c17/w/t/a.c"
+
+/-! bytes of a saved binary (`bindump`): a well-formed file naming its program is accepted; a changed byte, a cut file,
+    a file saved for another program, and missing output are not -/
+def tinyImage (name : String) : BinImage :=
+  { magic := [78, 69, 79, 76], driverId := 7, configId := 1000, includes := [], name := name.toUTF8.toList,
+    program := sampleProgram 0 1 0 1, inheritNames := [], strings := [[120]], varNames := [],
+    funNames := [[102]], lineInfo := [4, 0, 2, 0], patches := [] }
+def tinyHex (name : String) : String := hexOfBytes (encodeFile (tinyImage name))
+def bd : List String := ["bindump c17/w/t/a"]
+#guard judge bd [s!"bin c17/w/t/a {tinyHex "c17/w/t/a.c"}", "binsum c17/w/t/a size=1"] == []
+#guard judge bd [s!"bin c17/w/t/a {(tinyHex "c17/w/t/a.c").take 100}", s!"bin c17/w/t/a {(tinyHex "c17/w/t/a.c").drop 100}",
+  "binsum c17/w/t/a size=1"] == []
+#guard judge bd ["bindump c17/w/t/a unavailable"] == []
+#guard has (judge bd [s!"bin c17/w/t/a {tinyHex "c17/w/t/b.c"}", "binsum c17/w/t/a size=1"]) "saved-binary-names-another-program"
+#guard has (judge bd [s!"bin c17/w/t/a 00{(tinyHex "c17/w/t/a.c").drop 2}", "binsum c17/w/t/a size=1"]) "saved-binary-undecodable"
+#guard has (judge bd [s!"bin c17/w/t/a {(tinyHex "c17/w/t/a.c").dropEnd 20}", "binsum c17/w/t/a size=1"]) "saved-binary-undecodable"
+#guard has (judge bd []) "bindump-without-output"
+#guard has (judge bd ["binsum c17/w/t/a size=1"]) "bindump-unexpected"
+-- the model's reader states what the file holds
+-- (45 bytes of framing around the program block for this image, whatever the size of program_t)
+#guard (binSummary "x" (encodeFile (tinyImage "x.c"))).startsWith
+  s!"binsum x size={45 + Gen.C17.sizeofProgram} drv=7 cfg=1000 name=782e63 total={Gen.C17.sizeofProgram} inh=- str=1:"
+#guard binSummary "x" ((encodeFile (tinyImage "x.c")).take 100) == "binsum x undecodable"
+
+/-! an include found through the search path is shadowed by a new file next to the source -/
+def shadowCase (extra : List String) : List String :=
+  ["clean /c17/w/t", "file /include/s.h 00", "mtime /include/s.h 90", "file /c17/w/t/a.c 00", "mtime /c17/w/t/a.c 100",
+   "prog c17/w/t/a.c save=1 inc=include/s.h inh=- ssw=0", "incsearch c17/w/t/a.c c17/w/t/s.h include/s.h",
+   "mtime /simul_efun.c 50", "restart c17/w/t/a", "now 110", "reload c17/w/t/a"] ++ extra ++ ["now 130", "reload c17/w/t/a"]
+def shadowTrace (second : String) : List String :=
+  ["restarted 50", "begin 1", "lb c17/w/t/a.c stale", "sv c17/w/t/a.c 110 inc=include/s.h", "end 1", "begin 2", second, "end 2"]
+#guard judge (shadowCase []) (shadowTrace "lb c17/w/t/a.c use") == []
+#guard has (judge (shadowCase ["file /c17/w/t/s.h 00", "mtime /c17/w/t/s.h 80"]) (shadowTrace "lb c17/w/t/a.c use"))
+  "stale-binary-used c17/w/t/a.c dep=include-shadowed-by:c17/w/t/s.h"
+#guard judge (shadowCase ["file /c17/w/t/s.h 00", "mtime /c17/w/t/s.h 80"]) (shadowTrace "lb c17/w/t/a.c stale") == []
+
+/-! the reference compile (`reloadf`): a program loaded from its binary is compared with what the CURRENT sources compile
+    to, not with an older compile -/
+def refCase : List String := setup ++ [rl, "reloadf c17/w/t/a c17/w/t/b", rl]
+def refBlock (a : List String) : List String := ["begin 2"] ++ a ++ dumpB ++ ["R f:%61 \"f-0\"", "end 2"]
+#guard judge refCase (["restarted 50"] ++ block1 ++ refBlock dumpA1 ++ block2 dumpA2 "R f:%61 \"f-0\"") == []
+#guard has (judge refCase (["restarted 50"] ++ block1 ++ refBlock (repl dumpA1 "D c17/w/t/a co abc" "D c17/w/t/a co xyz") ++
+  block2 dumpA2 "R f:%61 \"f-0\"")) "program-differs c17/w/t/a"
+#guard has (judge refCase (["restarted 50"] ++ block1 ++ ["begin 2"] ++ dumpA1 ++ dumpB ++ ["R f:%61 \"f-9\"", "end 2"] ++
+  block2 dumpA2 "R f:%61 \"f-0\"")) "string-case-unreachable"
 
 end NV.C17.SpecTests
